@@ -19,7 +19,8 @@ from . import common_rtl as C
 ID = "C07"
 LEVEL = "exploration"
 RULE = ("case = (ff_ring template | ff_heavy generated design) x 10..30 cycles x 3 schedulers of 13 x seeded "
-        "permutation of the update_ff blocks x resets/glitches; non-trivial = >=2 update_ff blocks, >=1 register "
+        "permutation of the update_ff blocks x resets/glitches (6%: one class instantiated with two parameter sets, "
+        "closure-indexed register banks); non-trivial = >=2 update_ff blocks, >=1 register "
         "changed value at some edge and the flip monitor fired every cycle; distinct = case digest")
 TIERS = {"quick": {"runs": 1600, "budget_s": 100, "chunk": 4},
          "thorough": {"runs": 300000, "budget_s": 1800, "chunk": 8}}
